@@ -343,7 +343,18 @@ theorem head_of_split {pre mid rest : List (Int × Nat)} {t : Int} {q : Nat} (ht
         omega
     · simpa using hh
 
-theorem result_changed {ex : Option Int} {s : Part} (h : InvCore ex s) {t : Int} (ht : 0 ≤ t) {q : Nat}
+/-- the clauses of the invariant `set_quarter_duration` depends on (shared by `Inv` and `WInv`) -/
+structure QCore (s : Part) : Prop where
+  sorted : s.times.Pairwise (· < ·)
+  nonneg : ∀ p ∈ s.points, 0 ≤ p.t
+  quarter : ∀ p ∈ s.points, qdAt s.qtab p.t = some p.quarter
+  qsorted : (s.qtab.map (·.1)).Pairwise (· < ·)
+  qhead : s.qtab.head?.map (·.1) = some 0
+
+theorem InvCore.toQCore {ex : Option Int} {s : Part} (h : InvCore ex s) : QCore s :=
+  ⟨h.sorted, h.nonneg, h.quarter, h.qsorted, h.qhead⟩
+
+theorem result_changed {s : Part} (h : QCore s) {t : Int} (ht : 0 ≤ t) {q : Nat}
     {pre mid rest : List (Int × Nat)} (hsplit : s.qtab = pre ++ mid ++ rest) (h1 : ∀ e ∈ pre, e.1 < t)
     (hmid : mid = [] ∨ ∃ q', mid = [(t, q')]) (h2 : ∀ e ∈ rest, t < e.1)
     (hupd : qtabUpdate s.qtab t q = (pre.length, some (pre ++ (t, q) :: rest))) :
@@ -398,7 +409,7 @@ theorem result_changed {ex : Option Int} {s : Part} (h : InvCore ex s) {t : Int}
   · rename_i hc
     simpa [hc] using hq
 
-theorem result_unchanged {ex : Option Int} {s : Part} (h : InvCore ex s) {t : Int} {q : Nat} {i : Nat}
+theorem result_unchanged {s : Part} (h : QCore s) {t : Int} {q : Nat} {i : Nat}
     (hupd : qtabUpdate s.qtab t q = (i, none))
     (hval : ∀ x, 0 ≤ x → t ≤ x → ltOpt x (nextChange s.qtab t) → qdAt s.qtab x = some q) :
     QDResult s (setQD s t q) t q := by
@@ -410,7 +421,7 @@ theorem result_unchanged {ex : Option Int} {s : Part} (h : InvCore ex s) {t : In
     rw [hval x hx hc.1 hc.2]
   · exact hv
 
-theorem setQD_result {ex : Option Int} {s : Part} (h : InvCore ex s) {t : Int} (ht : 0 ≤ t) (q : Nat) :
+theorem setQD_result {s : Part} (h : QCore s) {t : Int} (ht : 0 ≤ t) (q : Nat) :
     QDResult s (setQD s t q) t q := by
   obtain ⟨pre, post, hsplit, h1, h2, -⟩ := searchsorted_tab_split s.qtab t
   have hs := h.qsorted
@@ -486,7 +497,7 @@ theorem setQD_result {ex : Option Int} {s : Part} (h : InvCore ex s) {t : Int} (
 
 /-- `set_quarter_duration` keeps the invariant -/
 theorem setQD_good {s : Part} (h : Good s) {t : Int} (ht : 0 ≤ t) (q : Nat) : Good (setQD s t q) := by
-  have r := setQD_result h.1 ht q
+  have r := setQD_result h.1.toQCore ht q
   have hrg : ∀ p' ∈ (setQD s t q).points, ∃ p ∈ s.points,
       p.t = p'.t ∧ p.starting = p'.starting ∧ p.ending = p'.ending := by
     intro p' hp'
